@@ -216,6 +216,49 @@ def u_enc(ctx, u):
                     _decrypt_all(ctx, key, der_ref, msg, 'roundtrip', n=n, size_class=str(cls), ciphertext_len=len(der_ref))
                     ctx.nontrivial('size-class', n, cls, d)
                     ctx.stat_max('largest_ciphertext_seen', len(der_ref))
+        # the batch interface: sm2_encrypt_pre_compute draws 8 nonces and keeps (k, [k]G); every pair must be exactly that,
+        # and sm2_do_encrypt_ex with each of them the ciphertext of the standard for that nonce
+        if lib.has('sm2_encrypt_pre_compute') and lib.has('sm2_do_encrypt_ex'):
+            NPC = 8
+            ks = [rng.choice([1, 2, N - 1, rng.randrange(1, N)]) if j in (0, NPC - 1) else rng.randrange(1, N) for j in range(NPC)]
+            skip_at = rng.randrange(NPC)
+            draws = []
+            for j, kk in enumerate(ks):
+                if j == skip_at:
+                    draws.append(rng.choice([0, N, (1 << 256) - 1]))       # must be redrawn, not used
+                draws.append(kk)
+            U.force_nonces(ctx, draws)
+            pcs = ctx.buf(96 * NPC, fill=0)
+            ctx.begin(['pre_compute', [hex(x) for x in ks]])
+            r = lib.sm2_encrypt_pre_compute(pcs)
+            raw = pcs.raw() if r == 1 else b''
+            if ctx.check(r == 1, 'encrypt:pre_compute-failed', ret=r):
+                for j, kk in enumerate(ks):
+                    ent = raw[96 * j:96 * j + 96]
+                    kgot = int.from_bytes(ent[:32], 'little')
+                    c1 = R.mul(kk, R.G)
+                    ctx.check(kgot == kk, 'encrypt:pre_compute:nonce-is-not-the-draw', entry=j, got=hex(kgot), want=hex(kk))
+                    ctx.check(ent[32:96] == R.pt_bytes(c1), 'encrypt:pre_compute:C1-is-not-kG', entry=j, k=hex(kk), got=ent[32:96].hex())
+                    n = rng.choice([1, 16, 32, 33, 255, rng.randrange(1, 256)])
+                    msg = _content(rng, n)
+                    ref = R.encrypt_with_k(pk, msg, kk)
+                    mb = ctx.inbuf(msg)
+                    st = ctx.buf(ctx.L['sizeof_SM2_CIPHERTEXT'], fill=0)
+                    pcb = ctx.inbuf(ent)
+                    ctx.begin(['do_encrypt_ex', j, n, hex(kk)])
+                    r2 = lib.sm2_do_encrypt_ex(pub_only, pcb, mb, n, st)
+                    if ref is None:
+                        ctx.check(r2 != 1, 'encrypt:all-zero-kdf-emitted-plaintext:sm2_do_encrypt_ex', ret=r2)
+                    else:
+                        got = _parse_struct(ctx, st.raw()) if r2 == 1 else None
+                        ctx.check(got == (ref[0], ref[1], ref[2]), 'encrypt:do_encrypt_ex-differs-from-standard', entry=j, n=n, k=hex(kk), ret=r2)
+                        if got == (ref[0], ref[1], ref[2]):
+                            _decrypt_all(ctx, key, R.ct_der(*got), msg, 'pre-computed-nonce', n=n, entry=j)
+                    ctx.nontrivial('pre_compute', d, j, kk, n)
+                    ctx.stat('pre_computed_nonce_entries')
+                    for b_ in (mb, st, pcb):
+                        b_.free()
+            pcs.free()
         key.free()
         pub_only.free()
     ctx.sample({'kind': 'enc', 'lengths': lens[:10], 'd': hex(d)})
